@@ -136,7 +136,8 @@ def find_memos(model, state):
             parent_body = _body_of(st)
             after = parent_body[parent_body.index(st) + 1 :] if parent_body else []
             if is_in:
-                miss = [s for s in after]
+                # hit arm returns; the miss path is the else arm (if any) followed by what comes after the if
+                miss = list(st.orelse) + [s for s in after]
                 kind = "hit-return"
             else:
                 miss = list(st.body)
@@ -357,7 +358,13 @@ def r15c(ctx):
         while n is not None and n is not fn:
             par = getattr(n, "_parent", None)
             if isinstance(par, ast.If):
-                encl.append((unparse(par.test), any(n is x or flow.contains(x, n) for x in par.body)))
+                in_body = any(n is x or flow.contains(x, n) for x in par.body)
+                # the else arm of an `if ...: raise / return` is just the fall-through written out: it narrows nothing
+                if in_body or not flow.terminates(par.body):
+                    tt, pol = par.test, in_body
+                    if isinstance(tt, ast.UnaryOp) and isinstance(tt.op, ast.Not):
+                        tt, pol = tt.operand, not pol
+                    encl.append((unparse(tt), pol))
             n = par
         under_overwrite = any(t == "overwrite" and pol for t, pol in encl)
         narrower = [t for t, pol in encl if t != "overwrite"]
